@@ -292,8 +292,12 @@ def hfe_side_bytes(cells, encoding, ops=None):
                 bits += [0] * (8 - len(bits))
                 out.append(pack(bits))
         if rand_left > 0:
-            # HFEv3 RAND opcode (F4): stands for one byte of weak cells; the recorded cells are gone
+            # HFEv3 RAND opcode (F4) + the byte it applies to: that byte's cells are weak (the reader must not rely
+            # on them); the stream keeps its length
             out.append(rev8(0xF4))
+            bits = list(raw[pos:pos + 8])
+            bits += [0] * (8 - len(bits))
+            out.append(pack(bits))
             pos += 8
             nbytes += 1
             rand_left -= 1
